@@ -54,6 +54,10 @@ def run(ctx):
     res.floor("events_observed", res.extra.get("events_observed", 0), 100)
     res.assumptions = ["minute-scale timeouts (the defaults 120/20 s) run the same code with other constants and are not exercised",
                        "wall-clock verdicts use a slack of 1 s plus the harness's own measured scheduling lag"]
+    # "... with the clean-up of C06": silent users with ranks, own channels, modes and invitations next to answering ones
+    from . import common
+    common.run_idleout(ctx, res, sigs=("idle:not-dropped", "idle:live-peer-dropped", "idle:ghost", "idle:roster", "idle:no-whowas",
+                                       "idle:nick-not-free", "idle:inv:", "idle:state:", "idle:conns"))
     return res
 
 
